@@ -208,16 +208,37 @@ func (p *parser) parse(opts CharsetOptions) *Regexp {
 					p.scanOffset = start + i + 2
 				}
 				p.next()
-				stack = append(stack, &Regexp{op: literalOp(opts.ScanBytes), text: lit, offset: start})
-				for lit != "" {
-					r, size := utf8.DecodeRuneInString(lit)
+				re := &Regexp{op: literalOp(opts.ScanBytes), text: lit, offset: start}
+				var folded []*Regexp // lit as a sequence of literals and folded characters, if needed
+				var flushed int
+				for i := 0; i < len(lit); {
+					r, size := utf8.DecodeRuneInString(lit[i:])
 					if r == utf8.RuneError && size == 1 {
-						p.error("invalid rune", start, start+1)
+						p.error("invalid rune", start+i, start+i+1)
 						return nil
 					}
-					lit = lit[size:]
-					start += size
+					if opts.Fold && foldable(r, opts) {
+						if flushed < i {
+							folded = append(folded, &Regexp{op: re.op, text: lit[flushed:i], offset: start + flushed})
+						}
+						cc := &Regexp{op: opCharClass, offset: start + i}
+						cc.charset = append(cc.charset0[:0], r, r)
+						cc.charset.fold(opts.ScanBytes)
+						folded = append(folded, cc)
+						flushed = i + size
+					}
+					i += size
 				}
+				if len(folded) > 0 {
+					if flushed < len(lit) {
+						folded = append(folded, &Regexp{op: re.op, text: lit[flushed:], offset: start + flushed})
+					}
+					re = &Regexp{op: opConcat, sub: folded}
+					if len(folded) == 1 {
+						re = folded[0]
+					}
+				}
+				stack = append(stack, re)
 				continue
 			}
 
